@@ -225,19 +225,22 @@ def build_case(seed, i, pair=None):
         return "w9:%d:%s" % (i, which), mod, H.short(s, 2000)
     if mode == 8:           # global / attribute names
         def fn(c):
-            return rebuild(c, co_names=tuple(s if n == "attr" else n for n in c.co_names))
+            s_ = s if s not in c.co_names else s + "_"        # never a duplicate entry (no compiler or assembler makes one)
+            return rebuild(c, co_names=tuple(s_ if n == "attr" else n for n in c.co_names))
         return "w9:%d:names" % i, _replace_in_child(_base("func"), fn), H.short(s, 2000)
     if mode == 9:           # local variable and parameter names
         tgt = rng.choice(["loc", "a", "b"])
         def fn(c):
-            return rebuild(c, co_varnames=tuple(s if n == tgt else n for n in c.co_varnames))
+            s_ = s if s not in c.co_varnames else s + "_"     # `def f(a, a)` is not a signature CPython can bind
+            return rebuild(c, co_varnames=tuple(s_ if n == tgt else n for n in c.co_varnames))
         return "w9:%d:varnames-%s" % (i, tgt), _replace_in_child(_base("func"), fn), H.short(s, 2000)
     if mode == 10:          # cell / free variable names
         def outer(c):
             inner = [x for x in c.co_consts if isinstance(x, H.CodeType)][0]
-            inner2 = rebuild(inner, co_freevars=(s,))
+            s_ = s if s not in c.co_varnames and s not in inner.co_varnames else s + "_"
+            inner2 = rebuild(inner, co_freevars=(s_,))
             c2 = rebuild(c, co_consts=tuple(inner2 if x is inner else x for x in c.co_consts),
-                         co_cellvars=(s,), co_varnames=tuple(s if n == "fv" else n for n in c.co_varnames))
+                         co_cellvars=(s_,), co_varnames=tuple(s_ if n == "fv" else n for n in c.co_varnames))
             return c2
         return "w9:%d:cell-free" % i, _replace_in_child(_base("closure"), outer), H.short(s, 2000)
     # mode 11: family members side by side
